@@ -1,9 +1,8 @@
 /-
-  Proofs/Reject — a call that raises (C15): from a well-formed state, and unless it is `del_comp(<rail name>)`
-  (`Safe15`), the state is left literally unchanged and the class is `ValueError`
-  (except `add_comp(parent=[])`: `IndexError`, state unchanged — `SafeErr`).
+  Proofs/Reject — a call that raises (C15): from a well-formed state it leaves the state literally unchanged
+  and the exception class is `ValueError`.
 -/
-import SysLoss.Proofs.WfAbs
+import SysLoss.Proofs.Legal
 
 set_option linter.unusedSectionVars false
 set_option linter.unusedSimpArgs false
@@ -14,24 +13,31 @@ section
 variable {π ν : Type} [CompLike π]
 
 /-- what C15 says about one call -/
-def Rejects (s : Sys π ν) (r : Sys.Res π ν) (errOk : Prop) : Prop :=
-  ∀ e, r.2 = .raised e → r.1 = s ∧ (errOk → e = "ValueError")
+def Rejects (s : Sys π ν) (r : Sys.Res π ν) : Prop :=
+  ∀ e, r.2 = .raised e → r.1 = s ∧ e = "ValueError"
 
-theorem rejects_fail_ve (s : Sys π ν) (P : Prop) : Rejects s (Sys.fail s "ValueError") P := by
+theorem rejects_fail_ve (s : Sys π ν) : Rejects s (Sys.fail s "ValueError") := by
   intro e he
   simp only [Sys.fail, Outcome.raised.injEq] at he
-  exact ⟨rfl, fun _ => he.symm⟩
+  exact ⟨rfl, he.symm⟩
 
-theorem rejects_ok (s s' : Sys π ν) (P : Prop) : Rejects s (s', .ok) P := by
+theorem rejects_ok (s s' : Sys π ν) : Rejects s (s', .ok) := by
   intro e he; simp at he
 
-theorem reject_addSource (s : Sys π ν) (c : π) (g r : String) : Rejects s (s.addSource c g r) True := by
+theorem rejects_fail_of (s : Sys π ν) {e : String} (h : e = "ValueError") : Rejects s (Sys.fail s e) := by
+  subst h; exact rejects_fail_ve s
+
+theorem reject_addSource (s : Sys π ν) (c : π) (g r : String) : Rejects s (s.addSource c g r) := by
   unfold Sys.addSource
   split
-  · exact rejects_fail_ve s _
+  · exact rejects_fail_ve s
   · split
-    · exact rejects_fail_ve s _
-    · exact rejects_ok s _ _
+    · exact rejects_fail_ve s
+    · exact rejects_ok s _
+
+theorem resolveAll_ok {s : Sys π ν} (hw : WFr s) (l : List String) : ∃ res, s.resolveAll l = .ok res := by
+  rw [resolveAll_eq]
+  exact resolveList_total (fun x _ => by rw [← getIndex_eq_resolve]; exact getIndex_ok hw x)
 
 theorem resolveParents_err {s : Sys π ν} (hw : WFr s) {c : π} {l : List String} {e : String}
     (hl : ∀ x ∈ l, s.chkParent x = true) (h : s.resolveParents c l = .error e) : e = "ValueError" := by
@@ -71,18 +77,41 @@ theorem muxScan_err {s : Sys π ν} (hs : Sane s) (hw : WFr s) {l : List (String
     · exact ih (fun q hq => hl q (List.mem_cons_of_mem _ hq)) h
 
 theorem reject_addComp {s : Sys π ν} (hs : Sane s) (hw : WFr s) (par : ParentArg) (c : π) (g r : String) :
-    Rejects s (s.addComp par c g r) (Sys.SafeErr (.addComp par c g r : Op π ν)) := by
+    Rejects s (s.addComp par c g r) := by
   unfold Sys.addComp
   simp only
   split
-  · exact rejects_fail_ve s _
+  · next e he =>
+    apply rejects_fail_of
+    cases par with
+    | one p =>
+      simp only at he
+      split at he
+      · simp at he
+      · simpa using he.symm
+    | many ps =>
+      simp only at he
+      split at he
+      · simpa using he.symm
+      · split at he
+        · simpa using he.symm
+        · split at he
+          · simpa using he.symm
+          · split at he
+            · simpa using he.symm
+            · obtain ⟨res, hres⟩ := resolveAll_ok hw ps
+              rw [hres] at he
+              simp only at he
+              split at he
+              · simpa using he.symm
+              · simp at he
   · next plist hplist =>
     have hchk : ∀ x ∈ plist, s.chkParent x = true := by
       cases par with
       | one p =>
         simp only at hplist
         split at hplist
-        · next h => simp only [Option.some.injEq] at hplist; subst hplist; simpa using h
+        · next h => simp only [Except.ok.injEq] at hplist; subst hplist; simpa using h
         · simp at hplist
       | many ps =>
         simp only at hplist
@@ -91,61 +120,109 @@ theorem reject_addComp {s : Sys π ν} (hs : Sane s) (hw : WFr s) (par : ParentA
         · split at hplist
           · simp at hplist
           · split at hplist
-            · next h => simp only [Option.some.injEq] at hplist; subst hplist; simpa using h
             · simp at hplist
-    split
-    · exact rejects_fail_ve s _
-    · split
-      · next e he =>
-        intro e' he'
-        simp only [Sys.fail, Outcome.raised.injEq] at he'
-        exact ⟨rfl, fun _ => he' ▸ resolveParents_err hw hchk he⟩
-      · next pidx hpidx =>
-        split
-        · next e he =>
-          intro e' he'
-          simp only [Sys.fail, Outcome.raised.injEq] at he'
-          refine ⟨rfl, fun _ => he' ▸ ?_⟩
-          split at he
-          · exact muxScan_err hs hw (fun p hp => hp) he
-          · simp at he
-        · split
-          · -- `pidx = []`: only for `parent = []`
-            intro e' he'
-            refine ⟨rfl, fun hsafe => ?_⟩
-            exfalso
-            have hlen := (resolveParents_spec hpidx).1
-            simp only [List.length_nil] at hlen
-            have hpl : plist = [] := List.eq_nil_of_length_eq_zero hlen.symm
-            subst hpl
-            cases par with
-            | one p =>
-              simp only at hplist
-              split at hplist <;> simp at hplist
-            | many ps =>
-              simp only at hplist
-              split at hplist
+            · split at hplist
+              · simp at hplist
+              · next h =>
+                split at hplist
+                · simp at hplist
+                · split at hplist
+                  · simp at hplist
+                  · simp only [Except.ok.injEq] at hplist; subst hplist
+                    simpa using h
+    have hne : plist ≠ [] := by
+      cases par with
+      | one p =>
+        simp only at hplist
+        split at hplist
+        · simp only [Except.ok.injEq] at hplist; subst hplist; simp
+        · simp at hplist
+      | many ps =>
+        simp only at hplist
+        split at hplist
+        · simp at hplist
+        · next hps =>
+          split at hplist
+          · simp at hplist
+          · split at hplist
+            · simp at hplist
+            · split at hplist
               · simp at hplist
               · split at hplist
                 · simp at hplist
                 · split at hplist
-                  · simp only [Option.some.injEq] at hplist
-                    subst hplist
-                    exact hsafe
                   · simp at hplist
-          · exact rejects_ok s _ _
+                  · simp only [Except.ok.injEq] at hplist; subst hplist; exact hps
+    split
+    · exact rejects_fail_ve s
+    · split
+      · next e he => exact rejects_fail_of s (resolveParents_err hw hchk he)
+      · next pidx hpidx =>
+        split
+        · next e he =>
+          apply rejects_fail_of
+          split at he
+          · exact muxScan_err hs hw (fun p hp => hp) he
+          · simp at he
+        · split
+          · exfalso
+            have hlen := (resolveParents_spec hpidx).1
+            simp only [List.length_nil] at hlen
+            exact hne (List.eq_nil_of_length_eq_zero hlen.symm)
+          · exact rejects_ok s _
+
+theorem kidsScan_err {s : Sys π ν} (hs : Sane s) {c : π} {l : List Nat} (hl : ∀ k ∈ l, k ∈ s.ids) {e : String}
+    (h : s.kidsScan c l = some e) : e = "ValueError" := by
+  induction l with
+  | nil => simp [Sys.kidsScan] at h
+  | cons k ks ih =>
+    unfold Sys.kidsScan at h
+    obtain ⟨kc, hkc⟩ := payload?_of_mem_ids (hl k (by simp))
+    rw [hkc] at h
+    simp only at h
+    split at h
+    · simpa using h.symm
+    · exact ih (fun q hq => hl q (List.mem_cons_of_mem _ hq)) h
+
+theorem refsErr_none {s : Sys π ν} (hw : WFr s) (d : List (Nat × List String)) : s.refsErr d = none := by
+  induction d with
+  | nil => rfl
+  | cons kp t ih =>
+    obtain ⟨k, pl⟩ := kp
+    unfold Sys.refsErr
+    obtain ⟨res, hres⟩ := resolveAll_ok hw pl
+    rw [hres]
+    exact ih
 
 theorem reject_changeComp {s : Sys π ν} (hs : Sane s) (hw : WFr s) (x : String) (c : π) (g r : String) :
-    Rejects s (s.changeComp x c g r) True := by
+    Rejects s (s.changeComp x c g r) := by
   unfold Sys.changeComp
   simp only
   split
-  · exact rejects_fail_ve s _
+  · exact rejects_fail_ve s
   · next hchk =>
+    simp only [Bool.not_eq_true, Bool.not_eq_false', Sys.chkComp, decide_eq_true_eq] at hchk
+    have hxnames : x ∈ s.names := (names_eq_nodes_keys hw x).mp hchk
     split
-    · exact rejects_fail_ve s _
-    · simp only [Bool.not_eq_true, Bool.not_eq_false', Sys.chkComp, decide_eq_true_eq] at hchk
-      obtain ⟨t, hxget⟩ := dget_isSome_iff.mpr hchk
+    · next e he =>
+      apply rejects_fail_of
+      split at he
+      · split at he
+        · simpa using he.symm
+        · simp at he
+      · split at he
+        · simp at he
+        · obtain ⟨cur, hcur⟩ := dget_isSome_iff.mpr ((hw.rails_keys x).mpr hxnames)
+          rw [hcur] at he
+          simp only at he
+          split at he
+          · simp at he
+          · split at he
+            · simpa using he.symm
+            · split at he
+              · simpa using he.symm
+              · simp at he
+    · obtain ⟨t, hxget⟩ := dget_isSome_iff.mpr hchk
       have ht : s.getIndex x = .ok (some t) := by unfold Sys.getIndex; rw [hxget]
       rw [ht]
       simp only
@@ -155,191 +232,87 @@ theorem reject_changeComp {s : Sys π ν} (hs : Sane s) (hw : WFr s) (x : String
       rw [payload?_of_mem hs hpm]
       simp only
       split
-      · exact rejects_fail_ve s _
+      · exact rejects_fail_ve s
       · split
-        · exact rejects_fail_ve s _
-        · rw [parentsErr_none hw]
-          simp only
-          obtain ⟨l, hl, hl', _⟩ := parentsOf_ok hw hpm
-          simp only at hl hl'
-          rw [hl]
-          simp only
-          split
-          · next e he =>
-            intro e' he'
-            simp only [Sys.fail, Outcome.raised.injEq] at he'
-            refine ⟨rfl, fun _ => he' ▸ ?_⟩
-            cases hlc : l with
-            | nil => rw [hlc] at he; simp at he
-            | cons y ys =>
-              obtain ⟨q, hq, rfl⟩ := hl' y (by simp [hlc])
-              rw [hlc] at he
-              simp only at he
-              obtain ⟨qc, hqc⟩ := payload?_of_mem_ids (preds_live hs hq).1
-              rw [hqc] at he
-              simp only at he
-              split at he
-              · simpa using he.symm
-              · simp at he
-          · have hnm := mem_names_of_mem hpm
-            simp only at hnm
-            rw [hpn] at hnm
-            rw [if_neg (by simpa [Sys.setPayload] using (hw.pconf_keys x).mpr hnm)]
-            rw [if_neg (by simpa [Sys.setPayload] using (hw.groups_keys x).mpr hnm)]
-            rw [if_neg (by simpa [Sys.setPayload] using (hw.rails_keys x).mpr hnm)]
-            exact rejects_ok s _ _
+        · exact rejects_fail_ve s
+        · split
+          · exact rejects_fail_ve s
+          · rw [parentsErr_none hw]
+            simp only
+            obtain ⟨l, hl, hl', _⟩ := parentsOf_ok hw hpm
+            simp only at hl hl'
+            rw [hl]
+            simp only
+            split
+            · next e he =>
+              apply rejects_fail_of
+              cases hlc : l with
+              | nil => rw [hlc] at he; simp at he
+              | cons y ys =>
+                obtain ⟨q, hq, rfl⟩ := hl' y (by simp [hlc])
+                rw [hlc] at he
+                simp only at he
+                obtain ⟨qc, hqc⟩ := payload?_of_mem_ids (preds_live hs hq).1
+                rw [hqc] at he
+                simp only at he
+                split at he
+                · simpa using he.symm
+                · simp at he
+            · split
+              · next e he =>
+                exact rejects_fail_of s (kidsScan_err hs (fun k hk => (hs.edges_live _ (mem_succs.mp hk)).2) he)
+              · rw [refsErr_none hw]
+                simp only
+                have hnm := mem_names_of_mem hpm
+                simp only at hnm
+                rw [hpn] at hnm
+                rw [if_neg (by simpa [Sys.setPayload] using (hw.pconf_keys x).mpr hnm)]
+                rw [if_neg (by simpa [Sys.setPayload] using (hw.groups_keys x).mpr hnm)]
+                rw [if_neg (by simpa [Sys.setPayload] using (hw.rails_keys x).mpr hnm)]
+                exact rejects_ok s _
 
-theorem reject_setSysPhases (s : Sys π ν) (ph : List (String × ν)) : Rejects s (s.setSysPhases ph) True := by
+theorem reject_setSysPhases (s : Sys π ν) (ph : List (String × ν)) : Rejects s (s.setSysPhases ph) := by
   unfold Sys.setSysPhases
   split
-  · exact rejects_fail_ve s _
+  · exact rejects_fail_ve s
   · split
-    · exact rejects_fail_ve s _
-    · exact rejects_ok s _ _
+    · exact rejects_fail_ve s
+    · exact rejects_ok s _
 
 theorem reject_setCompPhases {s : Sys π ν} (hs : Sane s) (hw : WFr s) (x : String) (pc : PConfArg ν) :
-    Rejects s (s.setCompPhases x pc) True := by
+    Rejects s (s.setCompPhases x pc) := by
   unfold Sys.setCompPhases
-  obtain ⟨r, hr⟩ := getIndex_ok hw x
-  rw [hr]
-  cases r with
-  | none => exact rejects_fail_ve s _
-  | some cidx =>
-    simp only
+  split
+  · exact rejects_fail_ve s
+  · next cidx hc =>
     split
-    · exact rejects_fail_ve s _
-    · obtain ⟨c, hc⟩ := payload?_of_mem_ids (getIndex_live hw hr)
-      rw [hc]
+    · exact rejects_fail_ve s
+    · obtain ⟨p, hp, _, hpi⟩ := nodes_get_live hw hc
+      have hpay : s.payload? cidx = some p.2 := by rw [← hpi]; exact payload?_of_mem hs hp
+      rw [hpay]
       simp only
       split
-      · exact rejects_fail_ve s _
-      · exact rejects_ok s _ _
+      · exact rejects_fail_ve s
+      · exact rejects_ok s _
 
-theorem reject_delComp {s : Sys π ν} (hs : Sane s) (hw : WFr s) (x : String) (d : Bool) (hsafe : s.byName x) :
-    Rejects s (s.delComp x d) True := by
-  unfold Sys.delComp
-  simp only
-  obtain ⟨r, hr⟩ := getIndex_ok hw x
-  rw [hr]
-  cases r with
-  | none => exact rejects_fail_ve s _
-  | some t =>
-    simp only
-    rw [parentsErr_none hw]
-    simp only
-    have htl : t ∈ s.ids := getIndex_live hw hr
-    rw [if_neg (by simpa using htl)]
-    have hx : x ∈ dkeys s.nodes := by
-      rcases hsafe with h | h
-      · exact h
-      · rw [h] at hr; simp at hr
-    have hxget : dget s.nodes x = some t := by
-      unfold Sys.getIndex at hr
-      obtain ⟨v, hv⟩ := dget_isSome_iff.mpr hx
-      simp only [hv, Except.ok.injEq, Option.some.injEq] at hr
-      rw [hv, hr]
-    obtain ⟨p, hpm, hpn, hpt⟩ := nodes_get_live hw hxget
-    obtain ⟨t', tc⟩ := p
-    simp only at hpn hpt; subst hpt
-    obtain ⟨l, hl, hl', hlnil⟩ := parentsOf_ok hw hpm
-    simp only at hl hl' hlnil
-    rw [hl]
-    simp only
-    split
-    · exact rejects_fail_ve s _
-    · next hg1 =>
-      split
-      · exact rejects_fail_ve s _
-      · have hrk := regsKnow_of_wfr hw
-        have htpay : s.payload? t' = some tc := payload?_of_mem hs hpm
-        cases d with
-        | true =>
-          simp only [if_true]
-          have hDlive : ∀ c ∈ s.descendants t', c ∈ s.ids := by
-            intro c hc
-            obtain ⟨b, hb⟩ := (mem_descendants.mp hc).2.last_mem
-            exact (hs.edges_live _ hb).2
-          obtain ⟨o1, p1⟩ := delDescendants_spec hs hrk (s.descendants t') (nodup_descendants s t') hDlive
-          generalize hr1 : s.delDescendants (s.descendants t') = r1 at o1 p1 ⊢
-          obtain ⟨s1, out1⟩ := r1
-          simp only at o1 p1; subst o1
-          unfold Sys.andThen
-          simp only
-          have hs1 : Sane s1 := by
-            have := sane_delDescendants hs (s.descendants t')
-            rw [hr1] at this; exact this
-          have hrk1 := regsKnow_pruned hs hrk p1
-          have htD : t' ∉ s.descendants t' := fun h => (mem_descendants.mp h).1 rfl
-          have htpay1 : s1.payload? t' = some tc := by
-            rw [payload?_filter hs p1.comps]; simp [htD, htpay]
-          have hm1 := mem_of_payload? htpay1
-          obtain ⟨o2, _⟩ := pruned_one' hs1 htpay1 (hrk1.nodes _ hm1) (hrk1.pconf _ hm1) (hrk1.groups _ hm1)
-            (hrk1.rails _ hm1)
-          rw [hpn] at o2
-          generalize hr2 : (s1.removeNode t').delRegs x = r2 at o2 ⊢
-          obtain ⟨s2, out2⟩ := r2
-          simp only at o2; subst o2
-          exact rejects_ok s _ _
-        | false =>
-          simp only [Bool.false_eq_true, if_false]
-          unfold Sys.andThen
-          simp only
-          obtain ⟨o2, p2⟩ := pruned_one' hs htpay (hrk.nodes _ hpm) (hrk.pconf _ hpm) (hrk.groups _ hpm)
-            (hrk.rails _ hpm)
-          rw [hpn] at o2 p2
-          generalize hr2 : (s.removeNode t').delRegs x = r2 at o2 p2 ⊢
-          obtain ⟨s2, out2⟩ := r2
-          simp only at o2 p2; subst o2
-          simp only
-          have hs2 : Sane s2 := by
-            have := sane_delRegs (sane_removeNode hs t') x
-            rw [hr2] at this; exact this
-          have hlne : l ≠ [] := by
-            intro e; apply hg1; simp [e]
-          cases hsucc : s.succs t' with
-          | nil => exact rejects_ok s _ _
-          | cons c0 cs0 =>
-            cases hlc : l with
-            | nil => exact absurd hlc hlne
-            | cons y ys =>
-              obtain ⟨p0, hp0, rfl⟩ := hl' y (by simp [hlc])
-              simp only
-              rw [← hsucc]
-              have hacyc := hs.acyclic
-              have hp0e : (p0, t') ∈ s.edges := mem_preds.mp hp0
-              have hp0t : p0 ≠ t' := fun e => hacyc t' (.single (by rw [e] at hp0e; exact hp0e))
-              have hids2 : ∀ n, n ∈ s2.ids ↔ n ∈ s.ids ∧ n ≠ t' := by
-                intro n; unfold Sys.ids; rw [p2.comps]
-                simp only [List.mem_map, List.mem_filter, List.mem_singleton, decide_eq_true_eq]
-                constructor
-                · rintro ⟨q, ⟨h1, h2⟩, rfl⟩; exact ⟨⟨q, h1, rfl⟩, h2⟩
-                · rintro ⟨⟨q, h1, rfl⟩, h2⟩; exact ⟨q, ⟨h1, h2⟩, rfl⟩
-              have hsub2 : ∀ e ∈ s2.edges, e ∈ s.edges := by
-                intro e he; rw [p2.edges] at he; exact (List.mem_filter.mp he).1
-              have hL : ∀ c ∈ s.succs t', c ∈ s2.ids ∧ c ≠ p0 ∧ ¬ Path s2.edges c p0 := by
-                intro c hc
-                have hce : (t', c) ∈ s.edges := mem_succs.mp hc
-                have hct : c ≠ t' := fun e => hacyc t' (.single (by rw [e] at hce; exact hce))
-                refine ⟨(hids2 c).mpr ⟨(hs.edges_live _ hce).2, hct⟩, ?_, ?_⟩
-                · intro e; subst e
-                  exact hacyc t' (.cons hce (.single hp0e))
-                · intro hpath
-                  exact hacyc t' (.cons hce ((hpath.mono hsub2).snoc hp0e))
-              obtain ⟨o3, _⟩ := relink_spec hs2 p0 (s.succs t')
-                ((hids2 p0).mpr ⟨(hs.edges_live _ hp0e).1, hp0t⟩) hL
-              intro e he
-              rw [o3] at he; simp at he
+theorem reject_delComp {s : Sys π ν} (hl : Legal s) (hw : WFr s) (x : String) (d : Bool) :
+    Rejects s (s.delComp x d) := by
+  intro e he
+  rcases delComp_spec hl.sane hw hl.pnames_total x d with h | ⟨h, _⟩
+  · rw [h] at he ⊢
+    simp only [Outcome.raised.injEq] at he
+    exact ⟨rfl, he.symm⟩
+  · rw [h] at he; simp at he
 
 /-- C15 for one call -/
-theorem reject_step {s : Sys π ν} (hs : Sane s) (hw : WFr s) (op : Op π ν) (hsafe : s.Safe15 op) :
-    Rejects s (s.step op) (Sys.SafeErr op) := by
+theorem reject_step {s : Sys π ν} (hl : Legal s) (hw : WFr s) (op : Op π ν) : Rejects s (s.step op) := by
   cases op with
-  | addSource c g r => intro e he; exact ⟨(reject_addSource s c g r e he).1, fun _ => (reject_addSource s c g r e he).2 trivial⟩
-  | addComp p c g r => exact reject_addComp hs hw p c g r
-  | changeComp x c g r => intro e he; exact ⟨(reject_changeComp hs hw x c g r e he).1, fun _ => (reject_changeComp hs hw x c g r e he).2 trivial⟩
-  | delComp x d => intro e he; exact ⟨(reject_delComp hs hw x d hsafe e he).1, fun _ => (reject_delComp hs hw x d hsafe e he).2 trivial⟩
-  | setSysPhases ph => intro e he; exact ⟨(reject_setSysPhases s ph e he).1, fun _ => (reject_setSysPhases s ph e he).2 trivial⟩
-  | setCompPhases x pc => intro e he; exact ⟨(reject_setCompPhases hs hw x pc e he).1, fun _ => (reject_setCompPhases hs hw x pc e he).2 trivial⟩
+  | addSource c g r => exact reject_addSource s c g r
+  | addComp p c g r => exact reject_addComp hl.sane hw p c g r
+  | changeComp x c g r => exact reject_changeComp hl.sane hw x c g r
+  | delComp x d => exact reject_delComp hl hw x d
+  | setSysPhases ph => exact reject_setSysPhases s ph
+  | setCompPhases x pc => exact reject_setCompPhases hl.sane hw x pc
 
 end
 end SysLoss
